@@ -38,6 +38,8 @@ def run(ctx):
     check_valist(ctx, prog)
     import nullret
     nullret.check(ctx, prog, 'C03', ('String.cpp',))
+    import litread
+    litread.check(ctx, prog, 'C03', ('String.cpp',))
     return __doc__.split('\n\n', 1)[1]
 
 
